@@ -567,7 +567,7 @@ func init() {
 		ID: "C11", Dirs: []string{"root"}, Level: "other",
 		Jobs:   func(tier string) []Job { return c01jobs(tier, true) },
 		Bounds: func(tier string) string {
-			return "same operation set and frame families as C01; obligation per step: the engine's write monitor saw no store (Store, copy, in-place append, map update) into any memory cell reachable from any family member (incl. a Grouper obtained earlier and spare capacity behind slices) or from any package-level variable of tobgu/qframe, and no sync.Map/sync.Once mutation (process-wide state)"
+			return "same operation set and frame families as C01; obligation per step: the engine's write monitor saw no store (Store, copy, in-place append, map update) into any memory cell reachable from any family member (incl. a Grouper obtained earlier and spare capacity behind slices) or from any package-level variable of tobgu/qframe, no sync.Map/sync.Once mutation (process-wide state), and no load or store of memory reachable from an object after it was handed to sync.Pool.Put"
 		},
 		Assume: []string{
 			"REDUCED FORM: interleavings are not encoded (no Go memory-model encoder available). Decided instead: every operation writes only to memory it allocated itself during the call. By the Go memory model, operations that only read shared locations cannot race, so this sequential condition implies race freedom for any multiset of these operations under every schedule; determinism of each operation gives 'same result as alone'",
